@@ -179,7 +179,8 @@ def _jsonable(v):
             text = json.dumps(v, sort_keys=True, default=repr)
         except TypeError:                      # keys of mixed types do not sort
             text = json.dumps(v, default=repr)
-        return json.loads(text, parse_constant=lambda c: 'const:' + c)
+        # reprs of objects (default=repr) carry addresses that differ from run to run
+        return json.loads(_ADDR.sub(' at 0x?', text), parse_constant=lambda c: 'const:' + c)
     except Exception:  # noqa
         return repr(v)
 
